@@ -269,3 +269,6 @@ func VerifRaffleRace(runner *Runner, rounds, n int) (maxGranted int, poolOk bool
 	}
 	return maxGranted, r.ticketsFull == 5 && r.ticketsIncr == 10
 }
+
+// VerifKillJob is Runner.killJob (the scheduler's kill of a running job).
+func VerifKillJob(runner *Runner, jobID string) { runner.killJob(jobID) }
